@@ -146,7 +146,7 @@ def make_data(n, dims=1, grid=5, kind="generic", seed=0, outlier_prob=0.0, het=F
     """Finite alphabet of likelihood-grid data sets (see DESIGN.md section 4)."""
     from phyclone.data.base import DataPoint
 
-    rs = np.random.RandomState({"generic": 11, "flat": 12, "peaked": 13, "extreme": 14, "seeded": 1000 + seed}.get(kind, 11))
+    rs = np.random.RandomState({"generic": 11, "flat": 12, "peaked": 13, "extreme": 14, "needle": 15, "seeded": 1000 + seed}.get(kind, 11))
     data = []
     for i in range(n):
         if kind == "flat":
@@ -157,6 +157,8 @@ def make_data(n, dims=1, grid=5, kind="generic", seed=0, outlier_prob=0.0, het=F
             v = -((x - c) ** 2) * (8.0 + 20.0 * rs.rand(dims, 1))
         elif kind == "extreme":
             v = -300.0 * rs.rand(dims, grid)
+        elif kind == "needle":  # far beyond the underflow floor: only finiteness and the enclosure are decidable
+            v = -5000.0 * rs.rand(dims, grid)
         else:
             v = -3.0 * rs.rand(dims, grid)
         op = outlier_prob
